@@ -189,6 +189,20 @@ func runC02(o Opts) error {
 					mut(ff, "int-all-ones")
 				}
 			}
+			// every date field of the reply at once: all zero (the 'no date' sentinel), all impossible, all non-decimal
+			for ci, pat := range [][]byte{{0, 0, 0, 0}, {0x20, 0x23, 0x02, 0x30}, {0x2a, 0x24, 0x01, 0x01}} {
+				m := append([]byte{}, base...)
+				n := 0
+				for _, f := range fields {
+					if f.Off >= 8 && (f.Text == "types.Date" || f.Text == "*types.Date") {
+						copy(m[f.Off:], pat)
+						n++
+					}
+				}
+				if n >= 2 {
+					send(m, []string{"all-dates-zero", "all-dates-impossible", "all-dates-non-decimal"}[ci])
+				}
+			}
 			// random payloads after the correct header
 			nrand := 4
 			if thorough {
